@@ -115,6 +115,16 @@ func runRandomLCS(c *core.Ctx) {
 		if len(b) == 0 {
 			b = []byte("a")
 		}
+		if c.Rng.Intn(6) == 0 {
+			// the other symbols of sequences: the ".........." spacer of joined paired reads, gaps '-':
+			// a symbol outside the nucleotide codes matches itself and nothing else
+			sp := []byte([]string{"..........", "-", "--", "."}[c.Rng.Intn(4)])
+			at := c.Rng.Intn(len(a) + 1)
+			a = append(append(append([]byte{}, a[:at]...), sp...), a[at:]...)
+			at = min(at, len(b))
+			b = append(append(append([]byte{}, b[:at]...), sp...), b[at:]...)
+			c.Count("pairs_with_non_letter_symbols", 1)
+		}
 		if c.Rng.Intn(4) == 0 {
 			a = gen.Upper(c.Rng, a, 300)
 		}
@@ -322,6 +332,58 @@ func runRandomD1(c *core.Ctx) {
 	c.Count("evaluations", per)
 }
 
+// runLongLCS: sequences of tens of thousands of bases (the kernel packs score and length in one word):
+// pairs built from a random sequence and a few edits, bounds around the number of edits; reference =
+// banded DP (exact here: an alignment leaving the band loses more matches than the constructed one).
+func runLongLCS(c *core.Ctx) {
+	var shared []uint64
+	// self-check of the banded reference against the full matrix on short pairs
+	for k := 0; k < 40; k++ {
+		a := gen.DNAIupac(c.Rng, 20+c.Rng.Intn(300), 30)
+		d := c.Rng.Intn(7)
+		b := gen.Mutate(c.Rng, a, d)
+		if len(b) == 0 {
+			continue
+		}
+		l1, a1 := ref.LCS(a, b, ref.Compatible)
+		l2, a2 := ref.LCSBanded(a, b, 2*d+8+max(len(a)-len(b), len(b)-len(a)), ref.Compatible)
+		if l1 != l2 || a1 != a2 {
+			c.Inconclusive("reference self-check failed: banded and full-matrix LCS disagree")
+			return
+		}
+	}
+	for k := 0; k < c.Pick(3, 8); k++ {
+		n := []int{9000, 16384, 20000, 30000, 32000, 32700}[c.Rng.Intn(6)]
+		a := gen.DNA(c.Rng, n)
+		d := c.Rng.Intn(7)
+		b := gen.Mutate(c.Rng, a, d)
+		if len(a)+len(b) >= 65534 {
+			b = b[:65533-len(a)]
+		}
+		band := 2*d + 8 + max(len(a)-len(b), len(b)-len(a))
+		lcs, ali := ref.LCSBanded(a, b, band, ref.Compatible)
+		diff := ali - lcs
+		for _, bound := range []int{diff, diff + 3, 60} {
+			for _, buf := range []*[]uint64{nil, &shared} {
+				gs, gl := obialign.FastLCSScore(bs(a), bs(b), bound, buf)
+				c.Count("evaluations", 1)
+				c.Key("long/%d/%d/%d", n/1000, diff, bound-diff)
+				if gs != lcs || gl != ali {
+					cause := "long:lcs-value"
+					if gs < 0 {
+						cause = "long:false-notfound"
+					}
+					c.Violate(cause, "FastLCSScore disagrees with the reference on a long pair", map[string]any{"len_a": len(a), "len_b": len(b), "edits": d, "bound": bound, "got_lcs": gs, "got_alilen": gl, "ref_lcs": lcs, "ref_alilen": ali})
+					return
+				}
+			}
+		}
+		if k == 0 {
+			c.Sample(map[string]any{"len_a": len(a), "len_b": len(b), "edits": d, "ref_lcs": lcs, "ref_alilen": ali})
+		}
+	}
+}
+
 // runConcurrent: the kernels are called by parallel workers (obiclean, obitag, obiconsensus ...): every
 // answer given while other goroutines run the same kernels must be the answer given alone. The
 // sequential answers are themselves compared with the reference first.
@@ -427,6 +489,7 @@ func init() {
 			{Name: "symbols", N: core.Const(1, 1), Run: runSymbols},
 			{Name: "lcs-exhaustive", N: core.Const(nShards, nShards), Run: runExhaustiveLCS},
 			{Name: "lcs-random", N: core.Const(64, 400), Run: runRandomLCS},
+			{Name: "lcs-long", N: core.Const(8, 48), Run: runLongLCS},
 			{Name: "egf", N: core.Const(16, 64), Run: runEGF},
 			{Name: "d1-exhaustive", N: core.Const(nShards, nShards), Run: runExhaustiveD1},
 			{Name: "d1-random", N: core.Const(32, 128), Run: runRandomD1},
